@@ -97,8 +97,12 @@ class Recorder:
         self.numeric = []      # per batch numeric payloads (C06)
 
 
+class UserAbort(Exception):
+    """What a user's own callback raises in the runs that model an aborted fit() (Train.tla, again = "abort")."""
+
+
 class Rec(CallbackBase):
-    """User callback: records every event it receives and requests a stop where told."""
+    """User callback: records every event it receives, requests a stop where told and raises where told."""
 
     def __init__(self, R, idx, plan, nn_hash=True):
         self.R, self.idx, self.plan, self.nn_hash = R, idx, plan, nn_hash
@@ -114,6 +118,9 @@ class Rec(CallbackBase):
             self.R.cur_ep = ep
         if injected:
             nn_state.stop_training = True
+        if ("RZ", k, ep, b, self.idx) in self.plan:
+            self.R.hist.append(dict(k="RZ", kk=k, ep=ep, b=b, cb=self.idx))
+            raise UserAbort("%s %s %s" % (k, ep, b))
 
     def on_train_start(self, nn_state):
         self._ev(nn_state, "TS", -1, -1)
@@ -396,6 +403,9 @@ def build_callbacks(cfg, R, plan, nn_state, tmpdir):
             if kind == "metric":
                 def metric(nn, _i=i, _d=d, **kw):
                     R.hist.append(dict(k="EV", cb=_i, ep=R.cur_ep))
+                    if ("RZ", "EE", R.cur_ep, -1, _i) in R.plan:     # the user's metric function raises
+                        R.hist.append(dict(k="RZ", kk="EE", ep=R.cur_ep, b=-1, cb=_i))
+                        raise UserAbort("metric at epoch %s" % R.cur_ep)
                     v = cfg["vals"][R.cur_ep] * cfg.get("scale", 1.0)
                     vk = _d.get("vkind") or ("np" if _d.get("np") else "float")
                     if vk == "tensor0d":
@@ -419,6 +429,9 @@ def build_callbacks(cfg, R, plan, nn_state, tmpdir):
 
                 def stats(nn, _i=i, **kw):
                     R.hist.append(dict(k="EV", cb=_i, ep=R.cur_ep))
+                    if ("RZ", "EE", R.cur_ep, -1, _i) in R.plan:     # sampling behind the observables raises
+                        R.hist.append(dict(k="RZ", kk="EE", ep=R.cur_ep, b=-1, cb=_i))
+                        raise UserAbort("statistics at epoch %s" % R.cur_ep)
                     v, var = cfg["vals"][R.cur_ep] * cfg.get("scale", 1.0), cfg["vars"][R.cur_ep] * cfg.get("scale", 1.0) ** 2
                     return {"SigmaZ": {"mean": float(v), "variance": float(var),
                                        "std_error": float(var) ** 0.5 / 2.0, "num_samples": 4}}
@@ -538,6 +551,7 @@ def real_run(cfg, plan=(), seed=0, k=1, lr=0.05, numeric_hook=None, time_flag=Fa
         own_tmp = tempfile.TemporaryDirectory(prefix="verif-train-")
         tmpdir = own_tmp.name
     try:
+        R.plan = set(plan)          # read by the scripted metrics (which of them raises, and when)
         if prev is not None:
             cbs = prev["objs"]
             for o in R.recs:
@@ -592,10 +606,13 @@ def real_run(cfg, plan=(), seed=0, k=1, lr=0.05, numeric_hook=None, time_flag=Fa
         if bases is not None:
             kwargs["input_bases"] = bases
         err = None
+        aborted = False
         out = io.StringIO()
         with observe(nn_state, R, numeric=bool(numeric_hook), force=force), contextlib.redirect_stdout(out):
             try:
                 common.api_call(nn_state.fit, FIT_ORDER, kwargs, first=(data,))
+            except UserAbort:           # the planned exception of a user callback left fit(), as it must
+                aborted = True
             except Exception as ex:     # reported by the caller, never swallowed silently
                 err = ex
         nn_state.__dict__.pop("save", None)
@@ -622,7 +639,7 @@ def real_run(cfg, plan=(), seed=0, k=1, lr=0.05, numeric_hook=None, time_flag=Fa
         else:
             same = data == [list(map(float, r)) for r in data_rows]
         res = dict(hist=R.hist, stop=bool(nn_state.stop_training), pver=R.opt_steps, sched=R.sched_steps,
-                   cbs=cbstate, error=err, objs=cbs, saves=saves, hash0=h0, hashes=R.hash_at,
+                   cbs=cbstate, error=err, aborted=aborted, objs=cbs, saves=saves, hash0=h0, hashes=R.hash_at,
                    hash_end=param_hash(nn_state), rng0=rng0,
                    rng_end=common.sha(torch.get_rng_state().numpy().tobytes()),
                    data_same=same and repr(data_rows) == data_before,
@@ -656,7 +673,8 @@ def draws_from_hist(hist):
 
 
 def plan_from_hist(hist):
-    return {(e["k"], e["ep"], e["b"], e["cb"]) for e in hist if e.get("inj")}
+    return {(e["k"], e["ep"], e["b"], e["cb"]) for e in hist if e.get("inj")} | \
+           {("RZ", e["kk"], e["ep"], e["b"], e["cb"]) for e in hist if e["k"] == "RZ"}
 
 
 def first_diff(a, b):
